@@ -46,9 +46,22 @@ def _param_reaches_result(fi, param, other_params):
     init = _single_value(fi.node, res)
     if init is not None and mentions(init, {param}):
         return True        # all_mw = list(app_middlewares) ...
+    from .c13 import list_segments
     for st in fi.node.body:                       # top level only: not nested in the loop over the routes
-        if isinstance(st, ast.For) and mentions(st.iter, {param}) and not mentions(st.iter, set(other_params)):
+        direct = isinstance(st, ast.For) and mentions(st.iter, {param}) and not mentions(st.iter, set(other_params))
+        grouped = False
+        if isinstance(st, ast.For) and not direct and isinstance(st.iter, ast.Name) and isinstance(st.target, ast.Name):
+            # a loop over a local list of groups built in straight-line code, one of whose *elements* is the parameter
+            # itself (not something computed per route): the nested loop over the group walks the parameter
+            segs = list_segments(fi, st.iter.id, st)
+            grouped = segs is not None and any(k == 'item' and norm(e) == param for k, e in segs)
+        if direct or grouped:
             lv = set(n.id for n in ast.walk(st.target) if isinstance(n, ast.Name))
+            if grouped:
+                outer, lv = set(lv), set()
+                for inner in ast.walk(st):
+                    if isinstance(inner, ast.For) and inner is not st and isinstance(inner.iter, ast.Name) and inner.iter.id in outer:
+                        lv |= set(n.id for n in ast.walk(inner.target) if isinstance(n, ast.Name))
             for c in ast.walk(st):
                 if isinstance(c, ast.Call) and isinstance(c.func, ast.Attribute) and norm(c.func.value) == res and \
                         c.func.attr in ('append', 'insert', 'add') and any(mentions(a, lv) for a in c.args):
